@@ -377,6 +377,8 @@ where
         });
 
         let res = self.storage.cache.get_or_compute(key, || {
+            #[cfg(pdf_verif)]
+            crate::verif::yield_point("get:compute-enter", key.id);
             {
                 let mut loads = self.storage.loads.lock().unwrap();
                 loads.wants.remove(&thread);
